@@ -31,7 +31,7 @@ func scenario(ps *pkgSpec) func(x *mc.X) {
 			// a package that reports something is run again from scratch: only verdicts that
 			// reproduce are reported (the Go build cache and the toolchain are shared with other
 			// jobs on the machine; a disturbed run must not become a violation)
-			if len(o.reports) > 0 {
+			if needsConfirmation(o) {
 				time.Sleep(3 * time.Second)
 				o2 := runPackage(ps)
 				if reportKeys(o) != reportKeys(o2) {
@@ -73,6 +73,18 @@ func scenario(ps *pkgSpec) func(x *mc.X) {
 			x.NonTrivial()
 		}
 	}
+}
+
+// needsConfirmation: verdicts of the law program (a binary that ran to its end marker) are
+// deterministic; everything that involves the Go toolchain or gombok's package loading is
+// confirmed by a second run.
+func needsConfirmation(o *outcome) bool {
+	for _, r := range o.reports {
+		if !strings.HasPrefix(r.key, "law/") {
+			return true
+		}
+	}
+	return false
 }
 
 func reportKeys(o *outcome) string {
